@@ -7,6 +7,8 @@
 -/
 import RdestModel.Props.C10
 import RdestModel.Lemmas.Loop
+import RdestModel.Props.C01
+import RdestModel.Props.C02
 set_option linter.unusedSimpArgs false
 set_option linter.unusedVariables false
 namespace Rdest.Props.C02Run
@@ -232,5 +234,369 @@ theorem newPieceRequest_rx (s : HState) (wi : Bool) (rd : ReqData) (content : By
   unfold newPieceRequest newRx rxOf firstRequests
   rw [hpre]
   rcases hl : leftImpl rd.length with _ | ⟨⟨b0, l0⟩, _ | ⟨⟨b1, l1⟩, rest⟩⟩ <;> simp [sendRequest, hl]
+
+/-! ### Part 2: task and manager in closed loop — one honest seeder completes the torrent -/
+
+section Closed
+open Rdest.Swarm.Loop Rdest.Props.C02
+
+/-- The torrent and its content: piece `i` has `plen i > 0` bytes and the listed hash is the hash of those bytes. -/
+structure Geo where
+  T : Torrent
+  content : Nat → Bytes
+  np : Nat
+
+def Geo.Ok (G : Geo) (sha1 : Bytes → Bytes) : Prop :=
+  ∀ i, i < G.np → (G.content i).length = G.T.plen i ∧ 0 < G.T.plen i ∧ G.T.hashes.getD i [] = sha1 (G.content i)
+
+/-- Executions of connection `a` in the closed-loop model (`LStepO`): manager and task step together. -/
+inductive Steps (T : Torrent) (sha1 : Bytes → Bytes) (a : Nat) : MState × HState → MState × HState → Prop where
+  | refl (x : MState × HState) : Steps T sha1 a x x
+  | tail (x y : MState × HState) (m' : MState) (t' : HState) (d : Option (Bytes × Bytes)) (inp : HIn) (outs : List HOut) :
+      Steps T sha1 a x y → LStepO T sha1 (diskOf d) a y.1 y.2 inp m' t' outs → Steps T sha1 a x (m', t')
+
+theorem Steps.trans {T : Torrent} {sha1 : Bytes → Bytes} {a : Nat} {x y z : MState × HState}
+    (h1 : Steps T sha1 a x y) (h2 : Steps T sha1 a y z) : Steps T sha1 a x z := by
+  induction h2 with
+  | refl => exact h1
+  | tail y' m' t' d inp outs _ hl ih => exact Steps.tail _ _ m' t' d inp outs ih hl
+
+theorem cmdsOf_nextRequest (i : Nat) (rest : List (Nat × Nat)) : cmdsOf (nextRequest i rest) = [] := by
+  cases rest <;> simp [nextRequest, cmdsOf]
+
+theorem cmdsOf_firstRequests (i : Nat) (rem : List (Nat × Nat)) : cmdsOf (firstRequests i rem) = [] := by
+  rcases rem with _ | ⟨x, _ | ⟨y, r⟩⟩ <;> simp [firstRequests, cmdsOf]
+
+/-- The session's only connection is `a`, piece `i` is assigned to it and not owned yet, the peer does not choke us, and
+    the task is fetching `i` with the blocks `rem` outstanding from offset `p`. -/
+structure Fetching (G : Geo) (sha1 : Bytes → Bytes) (a i p : Nat) (rem : List (Nat × Nat)) (m : MState) (t : HState) : Prop where
+  idx : i < G.np
+  len : m.statuses.length = G.np
+  peer : ∃ pr, m.peers = [pr] ∧ pr.addr = a ∧ pr.pieceIndex = some i ∧ pr.choked = false
+  alive : t.alive = true
+  hs : t.hsDone = true
+  rx : t.pieceRx = some (rxOf i (sha1 (G.content i)) (G.content i) p rem)
+  chain : Chain (G.content i).length p rem
+  ne : rem ≠ []
+
+/-- The manager's side of `PieceDone` when the chooser names another piece. -/
+theorem mstep_done_some (m : MState) (pr : MPeer) (a i c : Nat) (hp : m.peers = [pr]) (ha : pr.addr = a)
+    (hi : pr.pieceIndex = some i) (hch : pr.choked = false) :
+    mstep m (.pieceDone a (some c)) =
+      .ok { statuses := modifyAt (modifyAt m.statuses i (fun _ => .have)) c incr,
+            peers := [{ pr with rx := some c, pieceIndex := some c }] } (.request c false) := by
+  subst ha
+  simp [mstep, findPeer, hp, hi, handlePiece, hch, setPeer]
+
+/-- ... and when nothing is left to ask this peer for. -/
+theorem mstep_done_none (m : MState) (pr : MPeer) (a i : Nat) (hp : m.peers = [pr]) (ha : pr.addr = a)
+    (hi : pr.pieceIndex = some i) :
+    mstep m (.pieceDone a none) =
+      .ok { statuses := modifyAt m.statuses i (fun _ => .have),
+            peers := [{ pr with rx := none, pieceIndex := none, amInterested := false }] }
+        (if pr.interested then .sendNotInterested else .prepareKill) := by
+  subst ha
+  simp [mstep, findPeer, hp, hi, handlePiece, setPeer]
+
+/-- **One piece (closed loop, every chooser answer).** While the seeder answers in order, the joint execution reaches the
+    point where the piece is stored and reported; the manager marks it owned and — if the chooser names another piece `c`
+    of the torrent — the connection is fetching `c` from its first block. -/
+theorem round_some (G : Geo) (sha1 : Bytes → Bytes) (hG : G.Ok sha1) (a i c : Nat) (hc : c < G.np)
+    (rem : List (Nat × Nat)) (p : Nat) (m : MState) (t : HState) (hF : Fetching G sha1 a i p rem m t) :
+    ∃ m' t', Steps G.T sha1 a (m, t) (m', t') ∧
+      m'.statuses = modifyAt (modifyAt m.statuses i (fun _ => .have)) c incr ∧
+      Fetching G sha1 a c 0 (leftImpl (G.T.plen c)) m' t' := by
+  induction rem generalizing t p with
+  | nil => exact absurd rfl hF.ne
+  | cons bl rest ih =>
+    obtain ⟨b, l⟩ := bl
+    obtain ⟨pr, hp, hpa, hpi, hpc⟩ := hF.peer
+    cases rest with
+    | cons r1 rest' =>
+      -- an intermediate block: only the task moves
+      have hmid := step_mid sha1 (diskOf none) t i (sha1 (G.content i)) (G.content i) p b l r1 rest' .none hF.alive hF.hs hF.rx hF.chain
+      have hc' : Chain (G.content i).length (p + l) (r1 :: rest') := hF.chain.2.2.2
+      have hstep1 : LStepO G.T sha1 (diskOf none) a m t (.frame (.piece i b (honestBlock (G.content i) (b, l))) .none) m
+          { t with keepAlive := 0, pieceRx := some (rxOf i (sha1 (G.content i)) (G.content i) (p + l) (r1 :: rest')) }
+          (nextRequest i rest') :=
+        ⟨none, m, hmid, by rw [cmdsOf_nextRequest]; exact rfl, rfl⟩
+      have hF' : Fetching G sha1 a i (p + l) (r1 :: rest') m
+          { t with keepAlive := 0, pieceRx := some (rxOf i (sha1 (G.content i)) (G.content i) (p + l) (r1 :: rest')) } :=
+        ⟨hF.idx, hF.len, ⟨pr, hp, hpa, hpi, hpc⟩, hF.alive, hF.hs, rfl, hc', by simp⟩
+      obtain ⟨m', t', hs, hst, hF''⟩ := ih (p + l) _ hF'
+      exact ⟨m', t', Steps.trans (Steps.tail _ _ _ _ none _ _ (Steps.refl _) hstep1) hs, hst, hF''⟩
+    | nil =>
+      -- the last block: store, PieceDone, the manager's answer `request c`, the new assignment
+      obtain ⟨hlenc, hposc, hhashc⟩ := hG c hc
+      let rd : ReqData := { index := c, length := G.T.plen c, hash := G.T.hashes.getD c [] }
+      have hm := mstep_done_some m pr a i c hp hpa hpi hpc
+      have hnp := newPieceRequest_rx (base t) false rd (G.content c) hlenc
+      have hlast := step_last sha1 (diskOf none) t i (G.content i) p b l (.req rd false) hF.alive hF.hs hF.rx hF.chain
+      simp only [pieceFinishReply, hnp] at hlast
+      let m1 : MState := { statuses := modifyAt (modifyAt m.statuses i (fun _ => .have)) c incr,
+                           peers := [{ pr with rx := some c, pieceIndex := some c }] }
+      have hcm : cmdsOf ([HOut.save (sha1 (G.content i)) (G.content i), HOut.cmd Cmd.pieceDone] ++
+          ((if false = true then [HOut.write Msg.interested] else []) ++ firstRequests rd.index (leftImpl rd.length))) = [.pieceDone] := by
+        have := cmdsOf_firstRequests c (leftImpl (G.T.plen c))
+        simp [cmdsOf] at this ⊢
+        exact this
+      have hH : Handled G.T a m [.pieceDone] (.req rd false) m1 := ⟨some c, .request c false, hm, rfl⟩
+      have hL := (⟨none, m1, hlast, by rw [hcm]; exact hH, rfl⟩ :
+        LStepO G.T sha1 (diskOf none) a m t (.frame (.piece i b (honestBlock (G.content i) (b, l))) (.req rd false)) m1 _ _)
+      refine ⟨m1, _, Steps.tail _ _ _ _ none _ _ (Steps.refl _) hL, rfl, ?_⟩
+      refine ⟨hc, ?_, ⟨_, rfl, hpa, rfl, hpc⟩, hF.alive, hF.hs, ?_, ?_, leftImpl_ne_nil _ hposc⟩
+      · simp [m1, modifyAt_length, hF.len]
+      · show some (rxOf c (G.T.hashes.getD c []) (G.content c) 0 (leftImpl (G.T.plen c))) = _; rw [hhashc]
+      · rw [hlenc]; exact chain_leftImpl _
+
+
+/-- All blocks but the last: only the task moves, the manager's state stays. -/
+theorem to_last (G : Geo) (sha1 : Bytes → Bytes) (a i : Nat)
+    (rem : List (Nat × Nat)) (p : Nat) (m : MState) (t : HState) (hF : Fetching G sha1 a i p rem m t) :
+    ∃ t' p' bl, Steps G.T sha1 a (m, t) (m, t') ∧ Fetching G sha1 a i p' [bl] m t' := by
+  induction rem generalizing t p with
+  | nil => exact absurd rfl hF.ne
+  | cons bl rest ih =>
+    obtain ⟨b, l⟩ := bl
+    cases rest with
+    | nil => exact ⟨t, p, (b, l), Steps.refl _, hF⟩
+    | cons r1 rest' =>
+      have hmid := step_mid sha1 (diskOf none) t i (sha1 (G.content i)) (G.content i) p b l r1 rest' .none hF.alive hF.hs hF.rx hF.chain
+      have hc' : Chain (G.content i).length (p + l) (r1 :: rest') := hF.chain.2.2.2
+      have hstep1 : LStepO G.T sha1 (diskOf none) a m t (.frame (.piece i b (honestBlock (G.content i) (b, l))) .none) m
+          { t with keepAlive := 0, pieceRx := some (rxOf i (sha1 (G.content i)) (G.content i) (p + l) (r1 :: rest')) }
+          (nextRequest i rest') :=
+        ⟨none, m, hmid, by rw [cmdsOf_nextRequest]; exact rfl, rfl⟩
+      have hF' : Fetching G sha1 a i (p + l) (r1 :: rest') m
+          { t with keepAlive := 0, pieceRx := some (rxOf i (sha1 (G.content i)) (G.content i) (p + l) (r1 :: rest')) } :=
+        ⟨hF.idx, hF.len, hF.peer, hF.alive, hF.hs, rfl, hc', by simp⟩
+      obtain ⟨t', p', bl', hs, hF''⟩ := ih (p + l) _ hF'
+      exact ⟨t', p', bl', Steps.trans (Steps.tail _ _ _ _ none _ _ (Steps.refl _) hstep1) hs, hF''⟩
+
+/-- **The last piece.** When the chooser has nothing more to name, the joint execution still stores and reports the
+    piece, and the manager marks it owned (the connection then says `NotInterested`, or ends if the peer wants nothing). -/
+theorem round_none (G : Geo) (sha1 : Bytes → Bytes) (a i : Nat)
+    (rem : List (Nat × Nat)) (p : Nat) (m : MState) (t : HState) (hF : Fetching G sha1 a i p rem m t) :
+    ∃ m' t', Steps G.T sha1 a (m, t) (m', t') ∧ m'.statuses = modifyAt m.statuses i (fun _ => .have) := by
+  obtain ⟨t1, p1, ⟨b, l⟩, hs1, hF1⟩ := to_last G sha1 a i rem p m t hF
+  obtain ⟨pr, hp, hpa, hpi, hpc⟩ := hF1.peer
+  have hm := mstep_done_none m pr a i hp hpa hpi
+  let m1 : MState := { statuses := modifyAt m.statuses i (fun _ => .have),
+                       peers := [{ pr with rx := none, pieceIndex := none, amInterested := false }] }
+  cases hint : pr.interested with
+  | true =>
+    have hm' : mstep m (.pieceDone a none) = .ok m1 .sendNotInterested := by rw [hm]; simp [m1, hint]
+    have hlast := step_last sha1 (diskOf none) t1 i (G.content i) p1 b l .sendNotInterested hF1.alive hF1.hs hF1.rx hF1.chain
+    simp only [pieceFinishReply] at hlast
+    have hH : Handled G.T a m [.pieceDone] .sendNotInterested m1 := ⟨none, .sendNotInterested, hm', rfl⟩
+    have hcm : cmdsOf ([HOut.save (sha1 (G.content i)) (G.content i), HOut.cmd Cmd.pieceDone] ++ [HOut.write Msg.notInterested]) = [.pieceDone] := by
+      simp [cmdsOf]
+    have hL := (⟨none, m1, hlast, by rw [hcm]; exact hH, rfl⟩ :
+      LStepO G.T sha1 (diskOf none) a m t1 (.frame (.piece i b (honestBlock (G.content i) (b, l))) .sendNotInterested) m1 _ _)
+    exact ⟨m1, _, Steps.trans hs1 (Steps.tail _ _ _ _ none _ _ (Steps.refl _) hL), rfl⟩
+  | false =>
+    have hm' : mstep m (.pieceDone a none) = .ok m1 .prepareKill := by rw [hm]; simp [m1, hint]
+    have hlast := step_last sha1 (diskOf none) t1 i (G.content i) p1 b l .prepareKill hF1.alive hF1.hs hF1.rx hF1.chain
+    simp only [pieceFinishReply] at hlast
+    have hH : Handled G.T a m [.pieceDone] .prepareKill m1 := ⟨none, .prepareKill, hm', rfl⟩
+    have hcm : cmdsOf ([HOut.save (sha1 (G.content i)) (G.content i), HOut.cmd Cmd.pieceDone] ++ []) = [.pieceDone] := by
+      simp [cmdsOf]
+    have hL := (⟨some true, m1, hlast, by rw [hcm]; exact hH, rfl⟩ :
+      LStepO G.T sha1 (diskOf none) a m t1 (.frame (.piece i b (honestBlock (G.content i) (b, l))) .prepareKill) _ _ _)
+    refine ⟨_, _, Steps.trans hs1 (Steps.tail _ _ _ _ none _ _ (Steps.refl _) hL), ?_⟩
+    subst hpa
+    simp [afterEnd, m1, mstep, findPeer]
+
+/-- What C13 guarantees about the chooser when the only peer has everything: a pick is a piece of the torrent that is not
+    owned, and nothing is picked only when everything is owned. -/
+def PickOk (pick : List Status → Option Nat) : Prop :=
+  ∀ st, (∀ c, pick st = some c → c < st.length ∧ st[c]? ≠ some .have) ∧ (pick st = none → stillMissing st = 0)
+
+/-- **Part 2 (C02 for one honest seeder, closed loop).** For every torrent geometry and content, every chooser that
+    meets C13's guarantee, from the moment the first piece is assigned: the joint execution of connection task and manager,
+    with the seeder answering every request in order with the real bytes, reaches a state in which every piece is owned. -/
+theorem seeder_completes (G : Geo) (sha1 : Bytes → Bytes) (hG : G.Ok sha1) (pick : List Status → Option Nat)
+    (hpick : PickOk pick) (a : Nat) (n : Nat) :
+    ∀ (i : Nat) (m : MState) (t : HState), stillMissing m.statuses = n →
+      Fetching G sha1 a i 0 (leftImpl (G.T.plen i)) m t → m.statuses[i]? ≠ some .have →
+      ∃ m' t', Steps G.T sha1 a (m, t) (m', t') ∧ stillMissing m'.statuses = 0 ∧ m'.statuses.length = G.np := by
+  induction n with
+  | zero =>
+    intro i m t hn hF hi
+    -- nothing is missing, yet piece i is not owned: impossible
+    have hall := (T3_complete_iff_zero m.statuses).mp hn
+    have hlt : i < m.statuses.length := by rw [hF.len]; exact hF.idx
+    have := hall _ (List.getElem_mem hlt)
+    rw [List.getElem?_eq_getElem hlt, this] at hi
+    exact absurd rfl hi
+  | succ n ih =>
+    intro i m t hn hF hi
+    have hlt : i < m.statuses.length := by rw [hF.len]; exact hF.idx
+    have hx : m.statuses[i]? = some m.statuses[i] := List.getElem?_eq_getElem hlt
+    have hxne : m.statuses[i] ≠ .have := by intro h; rw [hx, h] at hi; exact hi rfl
+    have hsm := sm_modifyAt_have m.statuses i _ hx hxne
+    obtain ⟨hsome, hnone⟩ := hpick (modifyAt m.statuses i (fun _ => .have))
+    cases hp : pick (modifyAt m.statuses i (fun _ => .have)) with
+    | none =>
+      obtain ⟨m', t', hs, hst⟩ := round_none G sha1 a i _ 0 m t hF
+      exact ⟨m', t', hs, by rw [hst]; exact hnone hp, by rw [hst, modifyAt_length]; exact hF.len⟩
+    | some c =>
+      obtain ⟨hclt, hcne⟩ := hsome c hp
+      rw [modifyAt_length, hF.len] at hclt
+      obtain ⟨m1, t1, hs1, hst1, hF1⟩ := round_some G sha1 hG a i c hclt _ 0 m t hF
+      have hn1 : stillMissing m1.statuses = n := by
+        rw [hst1, sm_modifyAt_keeps _ c incr incr_keepsHave]; omega
+      have hc1 : m1.statuses[c]? ≠ some .have := by
+        rw [hst1, modifyAt_getElem?]
+        simp only [if_true]
+        intro h
+        cases hq : (modifyAt m.statuses i fun _ => Status.have)[c]? with
+        | none => rw [hq] at h; cases h
+        | some y =>
+          rw [hq] at h
+          simp only [Option.map_some, Option.some.injEq] at h
+          have : y = .have := (incr_keepsHave y).mp h
+          rw [this] at hq; exact hcne hq
+      obtain ⟨m', t', hs2, hz, hl⟩ := ih c m1 t1 hn1 hF1 hc1
+      exact ⟨m', t', Steps.trans hs1 hs2, hz, hl⟩
+
+
+/-! ### From a fresh connection, in the whole-client model -/
+
+open Rdest.Props.C01 in
+/-- Executions of one connection are executions of the whole client. -/
+theorem steps_sys (T : Torrent) (sha1 : Bytes → Bytes) (a : Nat) (x y : MState × HState) (h : Steps T sha1 a x y)
+    (S : Sys) (hS : SysReach T sha1 S) (hm : S.m = x.1) (ht : S.tasks a = x.2) :
+    ∃ S', SysReach T sha1 S' ∧ S'.m = y.1 ∧ S'.tasks a = y.2 := by
+  induction h with
+  | refl => exact ⟨S, hS, hm, ht⟩
+  | tail y' m' t' d inp outs _ hl ih =>
+    obtain ⟨S1, hr1, hm1, ht1⟩ := ih
+    rw [← hm1, ← ht1] at hl
+    exact ⟨_, SysReach.step S1 _ hr1 (SysStep.own S1 a d inp m' t' outs hl), rfl, by simp [updateTask]⟩
+
+/-- The start of the session with the seeder: it connects, shakes hands, sends a full bitfield and unchokes us; the chooser
+    names the first piece. -/
+theorem start_fetching (G : Geo) (sha1 : Bytes → Bytes) (hG : G.Ok sha1) (ih oid pid : Bytes) (c : Nat) (hc : c < G.np) :
+    ∃ S, SysReach G.T sha1 S ∧ S.m.statuses = modifyAt (List.replicate G.np .missing) c incr ∧
+      Fetching G sha1 0 c 0 (leftImpl (G.T.plen c)) S.m (S.tasks 0) := by
+  obtain ⟨hlenc, hposc, hhashc⟩ := hG c hc
+  let t0 : HState := { infoHash := ih, ownId := oid, piecesNum := G.np }
+  let S0 : Sys := { m := { statuses := List.replicate G.np .missing, peers := [] },
+                    tasks := fun _ => { t0 with alive := false }, stored := [] }
+  have r0 : SysReach G.T sha1 S0 := SysReach.init G.np _ (fun _ => rfl)
+  -- the connection
+  let p0 : MPeer := { addr := 0, pieces := List.replicate G.np false }
+  let m1 : MState := { statuses := List.replicate G.np .missing, peers := [p0] }
+  have r1 : SysReach G.T sha1 { S0 with m := m1, tasks := updateTask S0.tasks 0 t0 } :=
+    SysReach.step S0 _ r0 (SysStep.connect S0 0 t0 m1 rfl ⟨rfl, rfl, rfl⟩ (by simp [mstep, S0, m1, p0]))
+  -- handshake (answered with our bitfield), the seeder's bitfield, its unchoke
+  let bf : Bytes := List.replicate (bytesNumH G.np) 255
+  let t1 : HState := { t0 with peerId := some pid, hsDone := true }
+  have h1 : hstep sha1 (diskOf none) t0 (.frame (.handshake ih pid) (.bitfield [])) =
+      some (t1, [.write (.handshake ih oid), .cmd (.init pid), .write (.bitfield [])], none) := by
+    simp [hstep, handleFrame, kaAfter, isHandshake, dispatch, onHandshake, initHandshake, t0, t1]
+  have x1 : Steps G.T sha1 0 (m1, t0) (m1, t1) :=
+    Steps.tail _ _ _ _ none _ _ (Steps.refl _) ⟨none, m1, h1, by simp [cmdsOf, Handled], rfl⟩
+  let p1 : MPeer := { p0 with pieces := List.replicate G.np true, amInterested := true }
+  let m2 : MState := { m1 with peers := [p1] }
+  have h2 : hstep sha1 (diskOf none) t1 (.frame (.bitfield bf) (.state false true)) =
+      some (t1, [.cmd (.recvBitfield bf), .write .interested], none) := by
+    simp [hstep, handleFrame, kaAfter, isHandshake, dispatch, onBitfield, t0, t1, bf]
+  have x2 : Steps G.T sha1 0 (m1, t1) (m2, t1) := by
+    refine Steps.tail _ _ _ _ none _ _ (Steps.refl _) ⟨none, m2, h2, ?_, rfl⟩
+    have : cmdsOf [HOut.cmd (.recvBitfield bf), .write .interested] = [.recvBitfield bf] := by simp [cmdsOf]
+    rw [this]
+    exact ⟨List.replicate G.np true, some c, false, by simp [mstep, findPeer, setPeer, m1, m2, p0, p1], rfl⟩
+  let rd : ReqData := { index := c, length := G.T.plen c, hash := G.T.hashes.getD c [] }
+  let p2 : MPeer := { p1 with choked := false, pieceIndex := some c, rx := some c }
+  let m3 : MState := { statuses := modifyAt (List.replicate G.np .missing) c incr, peers := [p2] }
+  have hnp := newPieceRequest_rx
+    (HState.mk ih oid G.np (some pid) true none none false false 0 [] true) false rd (G.content c) hlenc
+  let t2 : HState := { t1 with choked := false, msgBuff := [], pieceRx := some (rxOf c rd.hash (G.content c) 0 (leftImpl rd.length)) }
+  have h3 : hstep sha1 (diskOf none) t1 (.frame .unchoke (.req rd false)) =
+      some (t2,
+            [.cmd .recvUnchoke] ++ ((if false = true then [HOut.write Msg.interested] else []) ++ firstRequests c (leftImpl rd.length)), none) := by
+    simp [hstep, handleFrame, kaAfter, isHandshake, dispatch, onUnchoke, t0, t1, t2, hnp]
+    exact ⟨rfl, rfl⟩
+  have x3 : Steps G.T sha1 0 (m2, t1) (m3, t2) := by
+    refine Steps.tail _ _ _ _ none _ _ (Steps.refl _) ⟨none, m3, h3, ?_, rfl⟩
+    have : cmdsOf ([HOut.cmd .recvUnchoke] ++ ((if false = true then [HOut.write Msg.interested] else []) ++
+        firstRequests c (leftImpl rd.length))) = [.recvUnchoke] := by
+      have := cmdsOf_firstRequests c (leftImpl rd.length)
+      simp [cmdsOf] at this ⊢
+      exact this
+    rw [this]
+    exact ⟨some c, .request c false, by simp [mstep, findPeer, setPeer, m1, m2, m3, p0, p1, p2], rfl⟩
+  obtain ⟨S3, hr3, hm3, ht3⟩ := steps_sys G.T sha1 0 _ _ (Steps.trans (Steps.trans x1 x2) x3) _ r1 rfl (by simp [updateTask])
+  refine ⟨S3, hr3, by rw [hm3], ?_⟩
+  rw [hm3, ht3]
+  refine ⟨hc, by simp [m3, modifyAt_length], ⟨p2, rfl, rfl, rfl, rfl⟩, rfl, rfl, ?_, ?_, leftImpl_ne_nil _ hposc⟩
+  · show some (rxOf c (G.T.hashes.getD c []) (G.content c) 0 (leftImpl (G.T.plen c))) = _; rw [hhashc]
+  · rw [hlenc]; exact chain_leftImpl _
+
+open Rdest.Props.C01 in
+/-- **C02, one honest seeder, whole client (every geometry, every content, every chooser meeting C13's guarantee).**
+    There is an execution of the whole-client model — the seeder connects, offers everything, unchokes us and answers every
+    request in order with the real bytes; the chooser's answers are `pick`'s — at whose end every piece is owned, and
+    (C01.T6) for every piece a file named by its listed hash, holding data with exactly that hash, has been written. -/
+theorem T7_seeder_download_completes (G : Geo) (sha1 : Bytes → Bytes) (hG : G.Ok sha1) (hnp : 0 < G.np)
+    (pick : List Status → Option Nat) (hpick : PickOk pick) (ih oid pid : Bytes) :
+    ∃ S, SysReach G.T sha1 S ∧ S.m.statuses.length = G.np ∧ (∀ x ∈ S.m.statuses, x = .have) ∧
+      ∀ i, i < G.np → (i, G.T.hashes.getD i [], G.T.hashes.getD i []) ∈ S.stored := by
+  -- the first pick
+  obtain ⟨hsome, hnone⟩ := hpick (List.replicate G.np .missing)
+  cases hp : pick (List.replicate G.np .missing) with
+  | none =>
+    have := hnone hp
+    rw [sm_replicate_missing] at this
+    omega
+  | some c =>
+    obtain ⟨hclt, _⟩ := hsome c hp
+    rw [List.length_replicate] at hclt
+    obtain ⟨S1, hr1, hst1, hF1⟩ := start_fetching G sha1 hG ih oid pid c hclt
+    have hci : S1.m.statuses[c]? ≠ some .have := by
+      rw [hst1, modifyAt_getElem?]
+      simp [List.getElem?_replicate, hclt, incr]
+    obtain ⟨m', t', hs, hz, hl⟩ := seeder_completes G sha1 hG pick hpick 0 _ c S1.m (S1.tasks 0) rfl hF1 hci
+    obtain ⟨S2, hr2, hm2, _⟩ := steps_sys G.T sha1 0 _ _ hs S1 hr1 rfl rfl
+    have hall := (T3_complete_iff_zero S2.m.statuses).mp (by rw [hm2]; exact hz)
+    have hlen : S2.m.statuses.length = G.np := by rw [hm2]; exact hl
+    exact ⟨S2, hr2, hlen, hall, fun i hi => T6_whole_client_owned_pieces_have_been_stored G.T sha1 S2 hr2 i (by
+      have hlt : i < S2.m.statuses.length := by rw [hlen]; exact hi
+      rw [List.getElem?_eq_getElem hlt, hall _ (List.getElem_mem hlt)])⟩
+
+
+/-- A chooser that meets the guarantee: the first piece that is not owned (non-vacuity of `PickOk`). -/
+def firstNotOwned (st : List Status) : Option Nat := st.findIdx? (· ≠ .have)
+
+theorem pickOk_firstNotOwned : PickOk firstNotOwned := by
+  intro st
+  refine ⟨fun c hc => ?_, fun hn => ?_⟩
+  · unfold firstNotOwned at hc
+    obtain ⟨hlt, hp, _⟩ := List.findIdx?_eq_some_iff_getElem.mp hc
+    refine ⟨hlt, ?_⟩
+    rw [List.getElem?_eq_getElem hlt]
+    intro h
+    simp only [Option.some.injEq] at h
+    simp [h] at hp
+  · unfold firstNotOwned at hn
+    rw [List.findIdx?_eq_none_iff] at hn
+    apply (T3_complete_iff_zero st).mpr
+    intro x hx
+    have := hn x hx
+    simpa using this
+
+/-- Non-vacuity (test): a two-piece torrent meets `Geo.Ok`, so T7 applies to it with the chooser above. -/
+example : ∃ S, SysReach ⟨[[0], [1]], fun _ => 1⟩ id S ∧ (∀ x ∈ S.m.statuses, x = .have) ∧ S.m.statuses.length = 2 := by
+  have hG : Geo.Ok ⟨⟨[[0], [1]], fun _ => 1⟩, fun i => [i.toUInt8], 2⟩ id := by
+    intro i hi
+    have hi' : i < 2 := hi
+    have : i = 0 ∨ i = 1 := by omega
+    rcases this with rfl | rfl <;> exact ⟨rfl, by decide, rfl⟩
+  obtain ⟨S, hr, hl, hall, _⟩ := T7_seeder_download_completes _ id hG (by decide) firstNotOwned pickOk_firstNotOwned [1] [2] [3]
+  exact ⟨S, hr, hall, hl⟩
+
+end Closed
 
 end Rdest.Props.C02Run
